@@ -265,6 +265,100 @@ func fold(file *ast.File, info *types.Info) int {
 	return n
 }
 
+// incdec rewrites x++ / x-- into x += 1 / x -= 1 (statement lists and for
+// post statements).
+func incdec(file *ast.File) int {
+	n := 0
+	conv := func(st ast.Stmt) ast.Stmt {
+		id, ok := st.(*ast.IncDecStmt)
+		if !ok {
+			return st
+		}
+		n++
+		tok := token.ADD_ASSIGN
+		if id.Tok == token.DEC {
+			tok = token.SUB_ASSIGN
+		}
+		return &ast.AssignStmt{Lhs: []ast.Expr{id.X}, TokPos: id.TokPos, Tok: tok, Rhs: []ast.Expr{&ast.BasicLit{Kind: token.INT, Value: "1"}}}
+	}
+	ast.Inspect(file, func(x ast.Node) bool {
+		switch v := x.(type) {
+		case *ast.BlockStmt:
+			for i := range v.List {
+				v.List[i] = conv(v.List[i])
+			}
+		case *ast.CaseClause:
+			for i := range v.Body {
+				v.Body[i] = conv(v.Body[i])
+			}
+		case *ast.CommClause:
+			for i := range v.Body {
+				v.Body[i] = conv(v.Body[i])
+			}
+		case *ast.ForStmt:
+			if v.Post != nil {
+				v.Post = conv(v.Post)
+			}
+		}
+		return true
+	})
+	return n
+}
+
+// condvar names the condition of an if statement: `if a != b {…}` becomes
+// `cvN := a != b; if cvN {…}` (conditions without calls, receives or function
+// literals only, so that nothing is evaluated earlier than before).
+func condvar(file *ast.File) int {
+	n := 0
+	pure := func(e ast.Expr) bool {
+		ok := true
+		ast.Inspect(e, func(x ast.Node) bool {
+			switch y := x.(type) {
+			case *ast.CallExpr, *ast.FuncLit:
+				ok = false
+			case *ast.UnaryExpr:
+				if y.Op == token.ARROW {
+					ok = false
+				}
+			}
+			return ok
+		})
+		return ok
+	}
+	conv := func(list []ast.Stmt) []ast.Stmt {
+		var out []ast.Stmt
+		for _, st := range list {
+			is, ok := st.(*ast.IfStmt)
+			if !ok || is.Init != nil || !pure(is.Cond) {
+				out = append(out, st)
+				continue
+			}
+			if _, isID := is.Cond.(*ast.Ident); isID {
+				out = append(out, st)
+				continue
+			}
+			n++
+			name := ast.NewIdent(fmt.Sprintf("cvZz%d", n))
+			out = append(out, &ast.AssignStmt{Lhs: []ast.Expr{name}, Tok: token.DEFINE, Rhs: []ast.Expr{is.Cond}})
+			is.Cond = ast.NewIdent(name.Name)
+			out = append(out, is)
+		}
+		return out
+	}
+	ast.Inspect(file, func(x ast.Node) bool {
+		switch v := x.(type) {
+		case *ast.BlockStmt:
+			v.List = conv(v.List)
+		case *ast.CaseClause:
+			v.Body = conv(v.Body)
+		case *ast.CommClause:
+			v.Body = conv(v.Body)
+		}
+		return true
+	})
+	return n
+}
+
 func main() {
 	dir := os.Args[1]
 	mode := "rename"
@@ -283,7 +377,7 @@ func main() {
 		for i, file := range pk.Syntax {
 			path := pk.CompiledGoFiles[i]
 			changed := false
-			if mode == "flip" || mode == "switch" || mode == "hoist" || mode == "fold" {
+			if mode == "flip" || mode == "switch" || mode == "hoist" || mode == "fold" || mode == "incdec" || mode == "condvar" {
 				k := 0
 				switch mode {
 				case "flip":
@@ -292,6 +386,10 @@ func main() {
 					k = toSwitch(file)
 				case "fold":
 					k = fold(file, pk.TypesInfo)
+				case "incdec":
+					k = incdec(file)
+				case "condvar":
+					k = condvar(file)
 				default:
 					k = hoist(file, pk.TypesInfo)
 				}
